@@ -50,8 +50,8 @@ var noReturnNames = map[string]bool{
 	"(*go.uber.org/zap.Logger).Panic": true, "(*go.uber.org/zap.Logger).Fatal": true,
 	"(*go.uber.org/zap.SugaredLogger).Panic": true, "(*go.uber.org/zap.SugaredLogger).Panicf": true, "(*go.uber.org/zap.SugaredLogger).Panicw": true, "(*go.uber.org/zap.SugaredLogger).Panicln": true,
 	"(*go.uber.org/zap.SugaredLogger).Fatal": true, "(*go.uber.org/zap.SugaredLogger).Fatalf": true, "(*go.uber.org/zap.SugaredLogger).Fatalw": true, "(*go.uber.org/zap.SugaredLogger).Fatalln": true,
-	modulePath + "/logger.Panic":  true, modulePath + "/logger.Panicf": true,
-	modulePath + "/logger.Fatal":  true, modulePath + "/logger.Fatalf": true,
+	modulePath + "/logger.Panic": true, modulePath + "/logger.Panicf": true,
+	modulePath + "/logger.Fatal": true, modulePath + "/logger.Fatalf": true,
 }
 
 // isNoReturn: the instruction never returns to its successor (process exit or panic).
